@@ -55,8 +55,13 @@ class StepRecord:
         tp = solver.options.terminal_psi
         self.repin = complex(tp) if tp else None
         self.rhs = (ops.divergence @ (self.Js - self.dAdt)) - (ops.mu_boundary_laplacian @ self.muB)
-        self.solve_residual = float(np.max(np.abs(ops.mu_laplacian @ self.mu_out - self.rhs)))
-        self.rhs_scale = float(np.max(np.abs(ops.mu_laplacian) @ np.abs(self.mu_out)) + 1e-300)
+        # the contract of the linear solve in Model.Step (hypothesis of C01_continuity): the LAPLACIAN OF THE MESH applied to the
+        # returned potential equals the right-hand side at every site - built here, not taken from the solver's system matrix (which
+        # may carry a gauge-fixing row)
+        from tdgl.finite_volume.operators import build_laplacian
+        Ltrue = build_laplacian(solver.device.mesh, weights=ops.laplacian_weights)[0]
+        self.solve_residual = float(np.max(np.abs(Ltrue @ self.mu_out - self.rhs)))
+        self.rhs_scale = float(np.max(np.abs(Ltrue) @ np.abs(self.mu_out)) + 1e-300)
         self.D, self.B = ops.divergence, ops.mu_boundary_laplacian
 
 
